@@ -89,7 +89,7 @@ class Bio(Suite):
             # adversarial for F4: first-appearance order in the dataset differs from the order in unified / consensus rankings
             D = gen.random_dataset(rng, 7, 5) if rng.random() < 0.6 else layered_dataset(rng, 7, 5)
             s = opt_scheme(rng) if st in ("none", "copeland") else bio_scheme(rng)
-            cases.append({"s": s, "D": D, "starters": st, "one": rng.random() < 0.4})
+            cases.append({"s": s, "D": D, "starters": st, "one": rng.random() < 0.4, "as_tuple": rng.random() < 0.3})
         # a duplicated input ranking placed BEFORE a distinct, much better one (e.g. a previously computed consensus
         # appended to the data), and two starters with the same consensus listed before a better one
         for _ in range(60 if tier == "quick" else 800):
@@ -121,7 +121,8 @@ class Bio(Suite):
             starts = None
         else:
             starts = [c() for c in st]
-            alg = BioConsert(starting_algorithms=starts)
+            # any iterable of algorithms is a valid way to give the starters: sometimes a tuple
+            alg = BioConsert(starting_algorithms=tuple(starts) if case.get("as_tuple") else starts)
         out = {"D": gen.observe(ds), "U": gen.id_order(ds)}
         try:
             if starts is not None:
@@ -141,9 +142,10 @@ class Bio(Suite):
         score of the answer against the scores of the departures) keeps the promising ones; Coq judges them like any other case."""
         from corankco.kemeny_score_computation import KemenyComputingFactory
         from corankco.ranking import Ranking
-        budget = 1200 if tier == "quick" else 12000
         cands = []
         pool = [c for c in disagreeing if "D" in c][:40]
+        pool_has_tuple = any(c.get("as_tuple") for c in pool)
+        budget = (4000 if pool_has_tuple else 1200) if tier == "quick" else 12000
         for _ in range(budget):
             r = rng.random()
             if pool and r < 0.4:
@@ -171,7 +173,13 @@ class Bio(Suite):
                 s, st = gen.UNIFYING, rng.choice(["none", "none", "borda+copeland+pickaperm", "copeland+pickaperm+borda"])
             if st != "none" and st != "copeland":
                 s = bio_scheme(rng) if s not in (gen.UNIFYING,) else s
-            case = {"s": s, "D": D, "starters": st, "one": rng.random() < 0.4}
+            tup = pool_has_tuple and rng.random() < 0.75
+            if tup:
+                st = rng.choice(["borda", "copeland", "borda+copeland"])
+                n = rng.randint(7, 9)
+                D = [gen.random_ranking(rng, list(range(n)), 1.0, rng.choice([0.8, 0.6])) for _ in range(3)]
+                s = gen.UNIFYING
+            case = {"s": s, "D": D, "starters": st, "one": rng.random() < 0.4, "as_tuple": tup}
             try:
                 out = self.run(case)
                 if "cons" not in out:
